@@ -77,9 +77,8 @@ func vRunArmed(hist []VEntry, e VEntry, script map[int]uint64, clockShift int64)
 	rec.Arm()
 	// (one processor: a goroutine that the entry starts cannot run, let alone finish, before we count)
 	prevProcs := runtime.GOMAXPROCS(1)
-	g0 := runtime.NumGoroutine()
 	st := in.Apply(e)
-	spawned := runtime.NumGoroutine() - g0
+	spawned := st.Spawned
 	runtime.GOMAXPROCS(prevProcs)
 	rt.Disarm()
 	rt.SetClockOffset(0)
